@@ -49,6 +49,12 @@ CASES = [
  ("C14", "data/builder.py", "            self.schema = name.schema.model_copy(deep=True)", "            self.schema = name.schema", "break"),
  ("C16", "data/items.py", "        if self._numbers is None:\n            if self._vocab is None:", "        if not self._numbers:\n            if self._vocab is None:", "break"),
  ("C16", "data/items.py", "        if vocabulary is not None and vocabulary is not self._vocab:", "        if vocabulary is not None:", "break"),
+ ("C16", "data/items.py", "            if item_ids is None and source is not None and source._ids is not None:\n                del self._ids", "            if source is not None and source._ids is not None:\n                del self._ids", "break"),
+ ("C16", "data/items.py", "        if isinstance(source, ItemList) and self._len != source._len:", "        if isinstance(source, ItemList) and self._len < source._len:", "break"),
+ ("C16", "data/items.py", "                and source._vocab is not vocabulary\n                and source._numbers is not None\n", "                and source._vocab is not vocabulary\n", "break"),
+ ("C16", "data/items.py", "                and source._vocab is not None\n                and source._vocab is not vocabulary\n", "                and source._vocab is not vocabulary\n                and source._vocab is not None\n", "keep"),
+ ("C16", "data/items.py", "                if item_ids is None and \"item_id\" not in fields:\n                    self._ids = source.ids()", "                if \"item_id\" not in fields and item_ids is None:\n                    self._ids = source.ids()", "keep"),
+ ("C16", "data/items.py", "            if source is not None and source._numbers is not None:\n                self.__dict__.pop(\"_numbers\", None)", "            if source is not None:\n                self.__dict__.pop(\"_numbers\", None)", "outside"),
  ("C16", "data/items.py", "        if missing == \"error\" and np.any(self._numbers.numpy() < 0):\n            raise KeyError(\"item IDs\")\n", "", "break"),
  ("C18", "basic/popularity.py", "        if hasattr(self, \"item_scores_\") and not options.retrain:\n            return\n\n        _log.info(\"counting item popularity\")", "        if hasattr(self, \"item_scores_\") or not options.retrain:\n            return\n\n        _log.info(\"counting item popularity\")", "break"),
  ("C18", "knn/item.py", "        if hasattr(self, \"items_\") and not options.retrain:", "        if not options.retrain and hasattr(self, \"items_\"):", "keep"),
